@@ -35,8 +35,6 @@ ELEMENT = [
         let ghost w0 = w@;'''),
     ins(A.text('let ty = match'), '''let ghost w1 = w@;
         ''', where='before'),
-    rep(A.text('None => self'), 'None => match self', tag='T14b'),
-    rep(A.span('.map_err(|e|', '?'), O.MAP_ERR_TAIL, tag='T14b', note='map_err(..)? is a match returning the converted error'),
     # T18: the tail expression is named so that a proof block can follow it (`{ let r = E; <proof> r }` is E)
     ins(A.text('match visibility {'), 'let res__ = ', where='before'),
     ins(A.body_end(), ''';
@@ -61,7 +59,7 @@ UNIT = Unit(
     items=O.base_items('Kotlin', SRC) + [
         Item('enum_Visibility', SRC, ['enum Visibility']),
         Item('write_element', SRC, ['impl Kotlin {', 'fn write_element'], ELEMENT, wrap=('impl Kotlin {\n', '\n}\n'),
-             auto=('fmt', 'strlit', 'then_some')),
+             auto=('fmt', 'strlit', 'then_some', 'map_err_q')),
     ],
     functions=['Kotlin::write_element', 'RustType::is_optional', 'RustType::is_double_optional'],
     trusted=O.TRUSTED + ['T18: the tail expression `match visibility {..}` is bound to a name so that a proof block can follow it'],
